@@ -576,7 +576,11 @@ func (w *BTWorld) GetTable(name string) (*btapb.Table, error) {
 }
 
 func (w *BTWorld) ListTables(parent string) ([]string, error) {
-	resp, err := w.admin().ListTables(context.Background(), &btapb.ListTablesRequest{Parent: parent})
+	return w.ListTablesView(parent, btapb.Table_VIEW_UNSPECIFIED)
+}
+
+func (w *BTWorld) ListTablesView(parent string, view btapb.Table_View) ([]string, error) {
+	resp, err := w.admin().ListTables(context.Background(), &btapb.ListTablesRequest{Parent: parent, View: view})
 	w.yieldMarshal()
 	if err != nil {
 		return nil, err
